@@ -107,10 +107,11 @@ class HookDispatch(Harness):
             for flt in filters:
                 for n in lens:
                     out.append({"hooks": [{"type": typ, "before": before, "n": n, "filter": flt}], "where": 0})
-            # two hooks of the same kind on one event (both symbolic single-entry lists)
-            out.append({"hooks": [{"type": typ, "before": before, "n": 1, "filter": None},
-                                  {"type": typ, "before": before, "n": None if typ in ("session",) else 1,
-                                   "filter": None}], "where": 0})
+            # two hooks of the same kind on one event: two timed ones, and a timed with an always-on one in both
+            # registration orders
+            for n1, n2 in ((1, 1), (1, None), (None, 1)):
+                out.append({"hooks": [{"type": typ, "before": before, "n": n1, "filter": None},
+                                      {"type": typ, "before": before, "n": n2, "filter": None}], "where": 0})
         if tier == "thorough":
             for typ, before in HOOK_KINDS:
                 out.append({"hooks": [{"type": typ, "before": before, "n": 2, "filter": None}], "where": 1})
@@ -136,8 +137,10 @@ class HookDispatch(Harness):
         st = rn.base_settings(n_agents=2, sessions=sessions, markets=markets, extra={"EV": {"class": "SpecProbe"}})
         st["A"]["markets"] = ["M0"]
         # agent 0 buys at 310, agent 1 sells at 290 (always crossing), one of them may cancel instead
-        # agent 0 buys at t=0 and buys again or cancels at t=1; agent 1 sells at t=1 and t=2 (always crossing)
-        menu = {"acts": ["limit", "cancel"], "per_agent": {"0": {"side": "B", "active": [0, 1]},
+        # agent 0 buys at t=0 and buys again or cancels at t=1, and sells at t=2 (crossing its own resting bid
+        # if there is one: a self-trade); agent 1 sells at t=1 and t=2 (always crossing)
+        menu = {"acts": ["limit", "cancel"], "per_agent": {"0": {"side_by_time": {"0": "B", "1": "B", "2": "S"},
+                                                                 "active": [0, 2]},
                                                            "1": {"side": "S", "active": [1, 2]}},
                 "vol_fixed": 1, "price_fixed": 300, "hooks": hooks, "rewrite": case.get("rewrite"),
                 "acts_by_time": {"0": ["limit"], "1": ["limit", "cancel"], "2": ["limit"]}}
